@@ -102,6 +102,56 @@ Proof.
   cbn [tcp_recv_n]. rewrite E. exists e, s'. split; [reflexivity | exact Hne].
 Qed.
 
+(* ---- whole sessions: send() = wrap, sendall, recv ---- *)
+Definition std_request (client server : N) (q : bytes) : bytes := std_header 1 client server (len q) ++ q.
+
+(* for any list of requests and any answers (one per request, any ports/version the meter chooses, any payload up to
+   65535 bytes) already on the stream or arriving under any read schedule: the session writes exactly the standard
+   wrapped requests, in order, one sendall() each; every send() returns its answer's payload whole; what follows the
+   answers stays unread *)
+Theorem tcp_session_any_schedule : forall client server reqs answers tail sched written,
+  client < 65536 -> server < 65536 -> Forall (fun q => len q < 65536) reqs -> Forall wmsg_ok answers ->
+  length answers = length reqs -> sched_ok sched ->
+  exists sched', sched_ok sched' /\
+    tcp_session client server reqs ((wstream answers ++ tail, sched), written)
+    = (map (fun m => Ok (wmsg_payload m)) answers,
+       ((tail, sched'), written ++ map (std_request client server) reqs)).
+Proof.
+  intros client server reqs. induction reqs as [|q reqs IH]; intros answers tail sched written Hc Hs Hq Ha Hlen Hok.
+  - destruct answers; [|discriminate]. exists sched. split; [exact Hok|]. cbn. rewrite app_nil_r. reflexivity.
+  - destruct answers as [|a answers]; [discriminate|]. injection Hlen as Hlen.
+    inversion Hq as [|q' r' Hq1 Hq2]; subst. inversion Ha as [|a' r'' Ha1 Ha2]; subst.
+    destruct a as [[[ver src] dst] p]. destruct Ha1 as (Hv & Hsr & Hd & Hl).
+    cbn [tcp_session tcp_send wstream wmsg_bytes map].
+    rewrite (wrap_is_header_plus_payload client server q Hc Hs Hq1).
+    rewrite <- !app_assoc.
+    destruct (tcp_recv_any_schedule src dst ver p (wstream answers ++ tail) sched Hsr Hd Hv Hl Hok) as (s1 & Hs1 & E1).
+    rewrite E1.
+    destruct (IH answers tail s1 (written ++ [std_header 1 client server (len q) ++ q]) Hc Hs Hq2 Ha2 Hlen Hs1)
+      as (s2 & Hs2 & E2).
+    match goal with |- context [tcp_session client server reqs ?st] =>
+      replace (tcp_session client server reqs st) with
+        (map (fun m => Ok (wmsg_payload m)) answers,
+         ((tail, s2), (written ++ [std_header 1 client server (len q) ++ q]) ++ map (std_request client server) reqs))
+        by (symmetry; exact E2) end. exists s2. split; [exact Hs2|]. rewrite <- app_assoc. reflexivity.
+Qed.
+
+(* a request too long for the 16-bit length field is refused before anything is written or read *)
+Theorem tcp_send_too_long_refused : forall client server q st,
+  client < 65536 -> server < 65536 -> 65536 <= len q ->
+  exists e, tcp_send client server q st = (Err e, st).
+Proof.
+  intros client server q [s w] Hc Hs Hq. unfold tcp_send, tcp_wrap, wpdu_to_bytes.
+  destruct (header_overflow_refused client server (len q) 1) as [e E]; [right; right; left; exact Hq|].
+  rewrite E. cbn [bind]. exists e. reflexivity.
+Qed.
+
+Example tcp_session_nonvacuous :
+  tcp_session 16 1 [[192; 1]; [98; 0]] ((wstream [(1, 1, 16, [196; 1; 0]); (1, 1, 16, [99])] ++ [7], [3; 1; 9; 2; 2; 2]%nat), [])
+  = ([Ok [196; 1; 0]; Ok [99]], (([7], []), [std_request 16 1 [192; 1]; std_request 16 1 [98; 0]])).
+Proof. vm_compute. reflexivity. Qed.
+
+
 Example wstream_nonvacuous :
   Forall wmsg_ok [(1, 1, 16, [104; 105]); (1, 16, 1, []); (1, 1, 16, [1; 2; 3])] /\
   tcp_recv_n 3 (wstream [(1, 1, 16, [104; 105]); (1, 16, 1, []); (1, 1, 16, [1; 2; 3])] ++ [9], [3; 1; 7; 2; 1; 30]%nat)
